@@ -23,95 +23,6 @@ def find_simplifier(hlp):
     raise AnalysisError('constant-folding loop of the simplifier not found')
 
 
-def merge_rule(ctx, R3):
-    """Bit positions in merge_sliceto_slice (shared with C07: a read overlapping several stores is assembled by expr_simp(ExprCompose(pieces)))."""
-    hlp = ctx.mod('expr_helper')
-    from ..linarith import lin, lin_add, show
-    ms = hlp.funcs.get('merge_sliceto_slice')
-    if ms is None:
-        raise AnalysisError('expression_helper.merge_sliceto_slice not found')
-    LOW = 'sorted_s[-1][1]'
-
-    def atoms(e):
-        """linear form with the lower neighbour sorted_s[-1][1] written as low"""
-        t = u(e).replace(LOW, 'low')
-        return lin(ast.parse(t, mode='eval').body)
-    # masking of constant pieces to their width
-    masks = [n for n in ast.walk(ms) if isinstance(n, ast.BinOp) and isinstance(n.op, ast.BitAnd) and isinstance(n.right, ast.BinOp) and isinstance(n.right.op, ast.Sub)
-             and isinstance(n.right.left, ast.BinOp) and isinstance(n.right.left.op, ast.LShift)]
-    if not masks:
-        R3.violation('const-mask', 'merge:const-mask:none', 'constant pieces are no longer masked to their width before merging', where(hlp, ms))
-    for n in masks:
-        width = lin(n.right.left.right)
-        if width == {'x[2]': 1, 'x[1]': -1} and u(n.right.left.left) == '1' and u(n.right.right) == '1':
-            R3.ok('const-mask', sample='constant piece masked with (1 << (stop - start)) - 1')
-        else:
-            R3.violation('const-mask', 'merge:const-mask:%s' % show(width), 'a constant piece is masked to %s bits instead of stop - start' % show(width), where(hlp, n))
-    inner = [n for n in ast.walk(ms) if isinstance(n, ast.While) and u(n.test) == 'sorted_s' and not any(isinstance(x, ast.While) for s2 in n.body for x in ast.walk(s2))]
-    if len(inner) != 2:
-        raise AnalysisError('merge_sliceto_slice: expected the two inner merge loops, found %d' % len(inner))
-    for k, loop in enumerate(inner):
-        which = 'constants' if any('uint64' in u(s2) for s2 in loop.body) else 'slices'
-        # invariant start == out[1] is established before the loop: start, v = pop(); out = [.., v[1], v[2]] with entries (x[1], x)
-        guards = [g for g in loop.body if isinstance(g, ast.If) and len(g.body) == 1 and isinstance(g.body[0], ast.Break)]
-        gtxt = [u(g.test) for g in guards]
-        inst = 'merge[%s]' % which
-        if '%s[2] != start' % LOW in gtxt:
-            R3.ok(inst + ':adjacent', sample='%s pieces merge only when low.stop == start' % which)
-        else:
-            R3.violation(inst + ':adjacent', 'merge:%s:adjacency' % which, 'the %s merge loop no longer requires the lower piece to end where the current one starts (guards: %s)'
-                         % (which, gtxt), where(hlp, loop))
-        env = {'start': {'out[1]': 1}}            # loop invariant
-        eq_low2 = {'out[1]': 1}                   # after the guard: low[2] == start == out[1]
-        seen_shift = seen_restore = False
-        for st in loop.body:
-            if isinstance(st, ast.Assign) and u(st.targets[0]) == 'start':
-                env['start'] = atoms(st.value)
-                if env['start'] != {'low[1]': 1}:
-                    R3.violation(inst + ':start', 'merge:%s:start:%s' % (which, u(st.value)), 'after merging, the piece must start at the lower piece\'s start; found start = %s' % u(st.value),
-                                 where(hlp, st))
-                else:
-                    R3.ok(inst + ':start', sample='start = low.start')
-            for n in ast.walk(st):
-                if which == 'constants' and isinstance(n, ast.BinOp) and isinstance(n.op, ast.LShift) and 'out[0].arg' in u(n.left):
-                    seen_shift = True
-                    amt = atoms(n.right)
-                    # substitute start and the adjacency equality low[2] == out[1]
-                    if 'start' in amt:
-                        c = amt.pop('start')
-                        amt = lin_add(amt, env['start'], c)
-                    if 'out[1]' in amt:
-                        c = amt.pop('out[1]')
-                        amt = lin_add(amt, {'low[2]': 1}, c)
-                    want = {'low[2]': 1, 'low[1]': -1}
-                    par = parent(n)
-                    while par is not None and not isinstance(par, ast.BinOp):
-                        par = parent(par)
-                    addend_ok = par is not None and isinstance(par.op, (ast.Add, ast.BitOr)) and '%s[0].arg' % LOW in u(par.right if par.left is n or n in list(ast.walk(par.left)) else par.left)
-                    if amt == want and addend_ok:
-                        R3.ok(inst + ':shift', sample='high part shifted by the width of the lower piece (low.stop - low.start), lower constant added')
-                    elif amt != want:
-                        R3.violation(inst + ':shift', 'merge:constants:shift:%s' % u(n.right), 'the accumulated high constant is shifted by %s (= %s), not by the width of the lower piece low.stop - low.start'
-                                     % (u(n.right), show(amt)), where(hlp, n), witness='Compose(0x11@0:8, 0x22@8:16, 0x33@16:24) folds to a different constant')
-                    else:
-                        R3.violation(inst + ':shift', 'merge:constants:addend', 'the lower constant is no longer added below the shifted high part', where(hlp, n))
-            if isinstance(st, ast.Assign) and u(st.targets[0]) == 'out[1]':
-                seen_restore = u(st.value) == 'start'
-            if which == 'slices' and isinstance(st, ast.Assign) and u(st.targets[0]) == 'out[0].start':
-                if u(st.value) == '%s[0].start' % LOW and '%s[0].stop != out[0].start' % LOW in gtxt:
-                    R3.ok(inst + ':source-bits', sample='slices of one source merge only when low.slice.stop == cur.slice.start; merged slice starts at low.slice.start')
-                else:
-                    R3.violation(inst + ':source-bits', 'merge:slices:source-bits', 'merged slice start is %s under guards %s: source bits are no longer contiguous' % (u(st.value), gtxt), where(hlp, st))
-        if which == 'constants':
-            if not seen_shift:
-                R3.violation(inst + ':shift', 'merge:constants:shift:none', 'constant merge no longer shifts the high part', where(hlp, loop))
-            if seen_restore:
-                R3.ok(inst + ':invariant', sample='out[1] = start restores the invariant start == out.start')
-            else:
-                R3.violation(inst + ':invariant', 'merge:constants:invariant', 'the merged constant piece does not record its new start (out[1] = start)', where(hlp, loop))
-
-
-
 def run(ctx, report):
     hlp = ctx.mod('expr_helper')
     fn, loop = find_simplifier(hlp)
@@ -135,231 +46,33 @@ def run(ctx, report):
         'apply the Python operator that S names, and for non-commutative S as LEFT.arg OP RIGHT.arg. D2: every operator for which the '
         '"trailing literal 0 is dropped" rule can fire has 0 as a right-neutral element and, when a single operand remains, is unwrapped to '
         'that operand (operator-set inclusion between the two guards, located by meaning). D3: in merge_sliceto_slice the bit-position arithmetic is checked as linear forms: constant pieces are masked to stop - start bits, pieces merge only when adjacent (low.stop == start), the accumulated high constant is shifted by exactly the width of the lower piece (under the loop invariant start == out.start and the adjacency equality), slices of one source merge only when their source bits are contiguous. D4: the side condition of each recognised rewrite ((A & m) >> s -> 0 needs m < 2**s strictly; rotation by the operand size; (A|c)==0; int==int; conditional on a constant; identity slice) and the re-basing arithmetic of slice-of-slice / slice-of-concatenation / slice-of-constant / slice-of-memory, as linear forms.')
-    report.not_decided = ('soundness of the side condition of each rewrite for all constants and widths (e.g. 2**shift >= mask), termination of the fixpoint loop `while e_new != e` -- these quantify over values.')
+    report.not_decided = ('soundness of each rewrite for ALL constants, widths and nestings: decided on the finite family only (boundary constants around every power of two the rules compare with, byte-grid slice boundaries, arities 1-4); termination beyond the family.')
 
     R1 = report.rule('C05.D1', 'constant folding applies the named operator with operands in expression order', floor=7)
     fold_eval_rule(ctx, R1, hlp, fn, loop)
 
-    R2 = report.rule('C05.D2', 'zero-drop rule is consistent with neutral elements and with the single-operand unwrap', floor=4)
-    drop_ops = unwrap_ops = None
-    drop_node = unwrap_node = None
-    for n in walk_no_nested(fn):
-        if not isinstance(n, ast.If):
-            continue
-        tests = n.test.values if isinstance(n.test, ast.BoolOp) and isinstance(n.test.op, ast.And) else [n.test]
-        oplist = None
-        lencond = None
-        for t in tests:
-            if isinstance(t, ast.Compare) and u(t.left) == 'op' and isinstance(t.ops[0], ast.In):
-                try:
-                    oplist = set(ev.ev(t.comparators[0]))
-                except NotConst:
-                    oplist = None
-            if isinstance(t, ast.Compare) and u(t.left) == 'len(args)':
-                lencond = (type(t.ops[0]).__name__, u(t.comparators[0]))
-        if oplist is None or lencond is None:
-            continue
-        body = ' ; '.join(u(s) for s in n.body)
-        if lencond == ('Gt', '1') and 'args[-1].arg == 0' in body and 'args.pop()' in body:
-            drop_ops, drop_node = oplist, n
-        if lencond == ('Eq', '1') and body.strip() == 'return args[0]':
-            unwrap_ops, unwrap_node = oplist, n
-    if drop_ops is None or unwrap_ops is None:
-        raise AnalysisError('zero-drop or unwrap guard of the simplifier not found')
-    for op in sorted(drop_ops):
-        inst = 'zero-drop[%s]' % op
-        if op not in RIGHT_NEUTRAL_ZERO:
-            R2.violation(inst, '%s:zero-drop:%s:neutral' % (fn.name, op), '0 is not a right-neutral element of %r but a trailing 0 is dropped' % op,
-                         where(hlp, drop_node))
-        elif op not in unwrap_ops:
-            R2.violation(inst, '%s:zero-drop:%s:unwrap' % (fn.name, op),
-                         'a trailing 0 of %r is dropped but a single remaining operand of %r is not unwrapped: x %s 0 becomes (%s x)' % (op, op, op, op),
-                         where(hlp, drop_node), witness='expr_simp(ExprOp("-", x, ExprInt32(0))) == -x')
-        else:
-            R2.ok(inst, sample='%s: 0 right-neutral and single operand unwrapped' % inst)
-    # unwrap must not cover operators with a unary meaning
-    UNARY_MEANING = {'-', '!', 'parity'}
-    bad = unwrap_ops & UNARY_MEANING
-    if bad:
-        R2.violation('unwrap', '%s:unwrap:%s' % (fn.name, sorted(bad)), 'single-operand unwrap covers unary operators %s (would turn -x into x)' % sorted(bad),
-                     where(hlp, unwrap_node))
-    else:
-        R2.ok('unwrap', sample='unwrap list %s has no unary operator' % sorted(unwrap_ops))
+    from .. import simpeval
+    KINDS = ('value', 'width', 'ill-typed', 'result')
+    R2 = report.rule('C05.D2', 'associative operators, negation and shifts: every rewriting step (zero drop, unwrap, flattening, cancellation, constant folding, A-B, -(A+B)) keeps width and value '
+                     '(the simplifier evaluated from its source on the operator x arity x constant-position family)', floor=12)
+    simpeval.emit(R2, ctx, lambda l: l.startswith(('assoc:', 'neg', 'shift:', 'shift-const:', 'const')), KINDS)
     report.analysed['fold_branches'] = 'evaluated'
 
-    # ---------------------------------------------------------------- D3 bit positions in merge_sliceto_slice
-    R3 = report.rule('C05.D3', 'merging adjacent pieces of a Compose keeps every piece at its bit position', floor=7)
-    merge_rule(ctx, R3)
+    R3 = report.rule('C05.D3', 'merging adjacent pieces of a concatenation keeps every piece at its bit position (merge_sliceto_slice evaluated on constant / slice / mixed pieces, '
+                     'adjacent or not, in any order)', floor=2)
+    simpeval.emit(R3, ctx, lambda l: l == 'compose', KINDS)
 
-    # ---------------------------------------------------------------- D4 side conditions and bit arithmetic of the rewrites
-    R4 = report.rule('C05.D4', 'rewrite rules fire only under their algebraic side condition and re-base slices exactly', floor=9)
-    from ..linarith import lin as _lin, show as _show
+    R4 = report.rule('C05.D4', 'rewrite rules fire only under their algebraic side condition and re-base slices exactly ((A & m) >> s, rotations, ==, parity, slice of '
+                     'constant / slice / concatenation / memory, conditional on a constant, nested forms: evaluated on boundary constants and byte-grid boundaries)', floor=12)
+    simpeval.emit(R4, ctx, lambda l: l.startswith(('mask-shift', 'rot', 'eq', 'parity', 'slice:', 'cond', 'nested')) , KINDS,
+                  key_map={('rot-merge-mixed', 'ill-typed'): 'rewrite:rot-merge:width'})
 
-    def ifs_where(pred):
-        return [n for n in walk_no_nested(fn) if isinstance(n, ast.If) and pred(u(n.test))]
-    # (A & mask) >> shift == 0  iff  mask < 2**shift
-    hits = ifs_where(lambda t: "op == '>>'" in t and "args[0].op == '&'" in t)
-    if not hits:
-        R4.ok('mask-shift:absent', nontrivial=False)
-    for n in hits:
-        inner = [x for x in ast.walk(n) if isinstance(x, ast.Compare) and any(isinstance(y, ast.BinOp) and isinstance(y.op, ast.Pow) for y in ast.walk(x))]
-        if not inner:
-            raise AnalysisError('mask/shift rewrite: side condition not found')
-        c = inner[0]
-        pow_left = any(isinstance(y, ast.BinOp) and isinstance(y.op, ast.Pow) for y in ast.walk(c.left))
-        strict = (pow_left and isinstance(c.ops[0], ast.Gt)) or (not pow_left and isinstance(c.ops[0], ast.Lt))
-        if strict:
-            R4.ok('mask-shift', sample='((A & mask) >> s) -> 0 only if mask < 2**s: %s' % u(c))
-        else:
-            R4.violation('mask-shift', 'rewrite:mask-shift:%s' % type(c.ops[0]).__name__, '((A & mask) >> shift) is rewritten to 0 under `%s`: for mask == 2**shift the bit A[shift] survives, '
-                         'so the condition must be strict' % u(c), where(hlp, c), witness='expr_simp((A & 0x80000000) >> 31) == 0')
-    # (constant shifts by a count >= the width: decided by the evaluated folding step, C05.D1 fold[<<]:bound)
-    for n in hits:
-        if 'args[1].arg >= args[0].get_size()' in u(n) :
-            R4.ok('mask-shift-bound', sample='(A & m) >> s: s >= width is decided without computing 2**s')
-        else:
-            R4.violation('mask-shift-bound', 'rewrite:mask-shift:unbounded', 'the side condition of ((A & mask) >> shift) evaluates 2**shift for any constant shift', where(hlp, n),
-                         witness='expr_simp((a & 1) >> 0x80000000) takes seconds and gigabytes')
-    # A <<< size(A) -> A : identified by its action (the If that returns the rotated operand unchanged)
-    def returns_operand(n):
-        return any(isinstance(x, ast.Return) and x.value is not None and u(x.value) == 'args[0]' for x in n.body)
-    for n in ifs_where(lambda t: "op in ['<<<', '>>>']" in t):
-        if not returns_operand(n):
-            continue
-        if 'args[1].arg == args[0].get_size()' in u(n.test):
-            R4.ok('rot-by-size', sample='A <<< size(A) -> A')
-        else:
-            R4.violation('rot-by-size', 'rewrite:rot-by-size', 'rotation identity fires under %s, expected count == operand size' % u(n.test), where(hlp, n))
-    # (A <<< X) <<< Y -> A <<< (X+Y): the two counts are added, so they must have the same width
-    for n in ifs_where(lambda t: "op in ['<<<', '>>>']" in t):
-        sums = [x for st in n.body for x in ast.walk(st) if isinstance(x, ast.BinOp) and isinstance(x.op, (ast.Add, ast.Sub))
-                and u(x.left) == 'args[0].args[1]' and u(x.right) == 'args[1]']
-        if not sums:
-            continue
-        t = u(n.test).replace(' ', '')
-        if 'args[0].args[1].get_size()==args[1].get_size()' in t or 'args[1].get_size()==args[0].args[1].get_size()' in t:
-            R4.ok('rot-merge-width', sample='(A <<< X) <<< Y merged only when X and Y have the same width')
-        else:
-            R4.violation('rot-merge-width', 'rewrite:rot-merge:width', 'nested rotations are merged by adding their counts (%s) without requiring the counts to have the same width'
-                         % u(sums[0]), where(hlp, n), witness="expr_simp(ExprOp('>>>', ExprOp('>>>', s, ecx & 0x1f), ExprInt8(3))) builds a 32-bit + 8-bit sum")
-    # constant folding: equal widths are demanded of the operands of the associative operators only (a shift count may be narrower)
-    diff = [n for n in walk_no_nested(fold_loop) if isinstance(n, ast.If) and 'i1.get_size() != i2.get_size()' in u(n.test) and any(isinstance(x, ast.Raise) for x in n.body)]
-    for n in diff:
-        from ..consteval import Evaluator as _Ev, NotConst as _NC, Obj as _Obj, Native as _Nat
-        verdict = {}
-        for opv in ('+', '>>', '<<'):
-            i1, i2 = _Obj('i1'), _Obj('i2')
-            i1.get_size = _Nat(lambda: 32)
-            i2.get_size = _Nat(lambda: 8)
-            try:
-                verdict[opv] = bool(_Ev({'op': opv, 'op_assoc': list(OP_ASSOC), 'i1': i1, 'i2': i2}).ev(n.test))
-            except _NC as e:
-                raise AnalysisError('fold loop width test not evaluable: %s' % e)
-        if verdict['+'] and not verdict['>>'] and not verdict['<<']:
-            R4.ok('shift-fold-mixed', sample='int OP int: equal widths demanded for associative operators, not for shift counts')
-        else:
-            R4.violation('shift-fold-mixed', 'rewrite:shift-fold:width', 'constant folding raises "diff size" under `%s` (raises for +: %s, >>: %s, <<: %s): a constant shift by a narrower count '
-                         '(the lifter\'s imm8 / cl counts) cannot be folded' % (u(n.test), verdict['+'], verdict['>>'], verdict['<<']), where(hlp, n),
-                         witness="expr_simp(ExprOp('>>', ExprInt32(0x100), ExprInt8(4))) raises ValueError")
-    # (A | c) == 0 -> 0 needs c != 0
-    for n in ifs_where(lambda t: "op == '=='" in t and 'args[1].arg == 0' in t):
-        inner = [x for x in ast.walk(n) if isinstance(x, ast.If) and "args[0].op == '|'" in u(x.test)]
-        for x in inner:
-            if 'args[0].args[1].arg != 0' in u(x.test):
-                R4.ok('or-eq-zero', sample='(A | c) == 0 -> 0 only for c != 0')
-            else:
-                R4.violation('or-eq-zero', 'rewrite:or-eq-zero', '(A | c) == 0 is rewritten to 0 without requiring c != 0', where(hlp, x), witness='expr_simp((A | 0) == 0) == 0')
-    # int == int
-    for n in ifs_where(lambda t: "op == '=='" in t and 'isinstance(args[0], ExprInt)' in t and 'isinstance(args[1], ExprInt)' in t):
-        inner = [x for x in n.body if isinstance(x, ast.If)]
-        good = False
-        for x in inner:
-            if u(x.test).replace(' ', '') == 'args[0].arg==args[1].arg' and x.orelse:
-                t1, t0 = u(x.body[0]), u(x.orelse[0])
-                good = t1.endswith('(1))') and t0.endswith('(0))')
-        if good:
-            R4.ok('int-eq-int', sample='int == int -> 1 when equal else 0')
-        else:
-            R4.violation('int-eq-int', 'rewrite:int-eq-int', 'folding of int == int no longer yields 1 for equal operands and 0 otherwise', where(hlp, n))
-    # slice rules live in the ExprSlice branch
-    sl_ifs = [n for n in walk_no_nested(fn) if isinstance(n, ast.If) and u(n.test) == 'isinstance(e, ExprSlice)']
-    if not sl_ifs:
-        raise AnalysisError('simplifier: ExprSlice branch not found')
-    chain = []
-    node = sl_ifs[0].body[0] if sl_ifs[0].body and isinstance(sl_ifs[0].body[0], ast.If) else None
-    # the slice branch is an if/elif chain; first statement may be a comment-less If
-    for st in sl_ifs[0].body:
-        if isinstance(st, ast.If):
-            node = st
-            break
-    while node is not None:
-        chain.append(node)
-        node = node.orelse[0] if len(node.orelse) == 1 and isinstance(node.orelse[0], ast.If) else None
-    by = dict((u(n.test), n) for n in chain)
-    full = [t for t in by if 'e.start == 0' in t and 'e.stop == e.arg.get_size()' in t]
-    if full:
-        R4.ok('slice-full', sample='A[0:size(A)] -> A under start == 0 and stop == size')
-    else:
-        R4.violation('slice-full', 'rewrite:slice-full', 'the identity slice rule no longer requires start == 0 and stop == size(A): %s' % list(by)[:2], where(hlp, sl_ifs[0]))
-    for t, n in by.items():
-        if t == 'isinstance(e.arg, ExprSlice)':
-            news = [c for c in ast.walk(n) if isinstance(c, ast.Call) and u(c.func) == 'ExprSlice' and len(c.args) == 3]
-            if not news:
-                raise AnalysisError('slice-of-slice rewrite: new slice not found')
-            c = news[0]
-            st_, sp_ = _lin(c.args[1]), _lin(c.args[2])
-            want_st = {'e.start': 1, 'e.arg.start': 1}
-            want_sp = {'e.stop': 1, 'e.arg.start': 1}
-            if u(c.args[0]) == 'e.arg.arg' and st_ == want_st and sp_ == want_sp:
-                R4.ok('slice-of-slice', sample='A[a:b][c:d] -> A[a+c : a+d]')
-            else:
-                R4.violation('slice-of-slice', 'rewrite:slice-of-slice:%s:%s' % (_show(st_), _show(sp_)), 'A[a:b][c:d] is rewritten to %s[%s : %s]; expected A[a+c : a+d]'
-                             % (u(c.args[0]), _show(st_), _show(sp_)), where(hlp, c), witness='expr_simp(eax[8:32][8:16]) must be eax[16:24]')
-        if t == 'isinstance(e.arg, ExprCompose)':
-            tests = [x for x in ast.walk(n) if isinstance(x, ast.If) and 'a[1]' in u(x.test)]
-            good = False
-            for x in tests:
-                tt = u(x.test).replace(' ', '')
-                sub = [c for c in ast.walk(x) if isinstance(c, ast.Subscript) and u(c.value) == 'a[0]' and isinstance(c.slice, ast.Slice)]
-                if tt in ('a[1]<=e.startanda[2]>=e.stop',) and sub and _lin(sub[0].slice.lower) == {'e.start': 1, 'a[1]': -1} and _lin(sub[0].slice.upper) == {'e.stop': 1, 'a[1]': -1}:
-                    good = True
-            if good:
-                R4.ok('slice-of-compose', sample='Compose(..)[s:t] -> piece[s-p : t-p] when the piece [p:q) contains [s:t)')
-            else:
-                R4.violation('slice-of-compose', 'rewrite:slice-of-compose', 'slice of a concatenation is not re-based as piece[start-p : stop-p] under p <= start and q >= stop', where(hlp, n),
-                             witness='expr_simp(Compose(a@0:16, b@16:32)[16:24]) must be b[0:8]')
-        if t == 'isinstance(e.arg, ExprInt)':
-            txt = u(n).replace(' ', '')
-            if '(1<<e.stop-e.start)-1' in txt and '>>e.start' in txt:
-                R4.ok('slice-of-int', sample='int[s:t] -> (int >> s) & ((1 << (t-s)) - 1)')
-            else:
-                R4.violation('slice-of-int', 'rewrite:slice-of-int', 'slice of a constant is not (value >> start) & ((1 << (stop-start)) - 1)', where(hlp, n))
-        if 'isinstance(e.arg, ExprMem)' in t:
-            mems = [c for c in ast.walk(n) if isinstance(c, ast.Call) and u(c.func) == 'ExprMem']
-            keeps_seg = any(any(k.arg == 'segm' and u(k.value) == 'e.arg.segm' for k in c.keywords) or (len(c.args) >= 3 and u(c.args[2]) == 'e.arg.segm') for c in mems)
-            if not keeps_seg:
-                R4.violation('slice-of-mem:segment', 'rewrite:slice-of-mem:segm', 'narrowing a memory read by a slice rebuilds the ExprMem without the segment selector of the original', where(hlp, n),
-                             witness='expr_simp(es:@32[a][0:8]) == @8[a]')
-            else:
-                R4.ok('slice-of-mem:segment', sample='@n[a][0:k] keeps the segment selector')
-            if 'e.start == 0' in t and 'e.arg.size > e.stop' in t and 'e.stop % 8 == 0' in t:
-                R4.ok('slice-of-mem', sample='@n[a][0:k] -> @k[a] only for start == 0, k < n, k a multiple of 8 (little endian)')
-            else:
-                R4.violation('slice-of-mem', 'rewrite:slice-of-mem', 'narrowing a memory read by a slice requires start == 0, stop < size and stop a multiple of 8; found %s' % t, where(hlp, n),
-                             witness='@32[a][8:16] is not @8[a]')
-    # conditional on a constant
-    cd = [n for n in walk_no_nested(fn) if isinstance(n, ast.If) and u(n.test) == 'isinstance(e.cond, ExprInt)']
-    for n in cd:
-        inner = [x for x in n.body if isinstance(x, ast.If)]
-        good = any(u(x.test).replace(' ', '') == 'e.cond.arg==0' and 'src2' in u(x.body[0]) and x.orelse and 'src1' in u(x.orelse[0]) for x in inner)
-        if good:
-            R4.ok('cond-const', sample='(c ? A : B) -> B when c == 0 else A')
-        else:
-            R4.violation('cond-const', 'rewrite:cond-const', 'a conditional on a constant no longer selects src2 for 0 and src1 otherwise', where(hlp, n))
+    R5 = report.rule('C05.D5', 'the simplifier returns on every well-typed member of the family: no KeyError from the width->integer-type table (odd slice widths, 24-bit '
+                     'concatenations), no other internal error', floor=20)
+    simpeval.emit(R5, ctx, lambda l: True, ('raises',))
 
-    # ---------------------------------------------------------------- D5 size-table lookups are guarded
-    R5 = report.rule('C05.D5', 'the simplifier indexes the width->integer-type table only with widths that have an integer type', floor=8)
-    size_table_rule(R5, hlp, [fn, hlp.func('merge_sliceto_slice')])
+    R10 = report.rule('C05.D10', 'the rewriting of every member of the family terminates (fixpoint loop and recursion bounded by the evaluator)', floor=20)
+    simpeval.emit(R10, ctx, lambda l: True, ('loops',))
 
     # ---------------------------------------------------------------- D6 the equality the rewrites rely on is exact
     R6 = report.rule('C05.D6', 'A ^ A, A + (-A), A | A, A & A and the fixpoint test compare with an exact structural equality', floor=8)
@@ -492,68 +205,10 @@ def fold_eval_rule(ctx, R1, hlp, fn, loop):
             R1.ok(inst, nontrivial=False)
 
 
-def size_table_rule(R, hlp, fns):
-    """Every `tab_size_int[K]` of the simplifier: K must be the width of something known to be a constant (dominating isinstance(.., ExprInt) on the
-    value or on an operand of it), or be dominated by a membership test `K in tab_size_int` (directly, or through a name bound to that test), or range over
-    the table's own keys.  A bare expression width (slices have any width 1..64) raises KeyError."""
-    TABLE = 'tab_size_int'
-    for f in fns:
-        # names bound to a membership test
-        member_names = {}
-        for n in walk_no_nested(f):
-            if isinstance(n, ast.Assign) and len(n.targets) == 1 and isinstance(n.targets[0], ast.Name) and isinstance(n.value, ast.Compare) \
-                    and len(n.value.ops) == 1 and isinstance(n.value.ops[0], ast.In) and u(n.value.comparators[0]) == TABLE:
-                member_names[n.targets[0].id] = u(n.value.left)
-        popped = set()
-        for n in walk_no_nested(f):
-            if isinstance(n, ast.Assign) and isinstance(n.value, ast.Call) and u(n.value.func).endswith('.pop') and isinstance(n.targets[0], ast.Name):
-                w = parent(n)
-                while w is not None and not isinstance(w, ast.While):
-                    w = parent(w)
-                if w is not None and 'isinstance(args[-1], ExprInt)' in u(w.test) and 'isinstance(args[-2], ExprInt)' in u(w.test):
-                    popped.add(n.targets[0].id)
-        for n in walk_no_nested(f):
-            if not (isinstance(n, ast.Subscript) and isinstance(n.value, ast.Name) and n.value.id == TABLE and isinstance(n.ctx, ast.Load)):
-                continue
-            k = n.slice
-            ktxt = u(k)
-            inst = '%s:%s[%s]' % (f.name, TABLE, ktxt)
-            # dominating tests: tests of enclosing If (node in body) and While
-            tests = []
-            c, p_ = n, parent(n)
-            while p_ is not None and p_ is not f:
-                if isinstance(p_, ast.If) and any(c is st for st in p_.body):
-                    tests.append(u(p_.test))
-                if isinstance(p_, ast.While) and any(c is st for st in p_.body):
-                    tests.append(u(p_.test))
-                c, p_ = p_, parent(p_)
-            dom = ' and '.join(tests)
-            why = None
-            if ('%s in %s' % (ktxt, TABLE)) in dom:
-                why = 'dominated by the membership test'
-            elif any(nm in [x.id for t in tests for x in ast.walk(ast.parse(t, mode='eval')) if isinstance(x, ast.Name)] and member_names[nm] == ktxt for nm in member_names):
-                why = 'dominated by a name bound to the membership test'
-            elif isinstance(k, ast.Call) and u(k.func) in ('min', 'max') and TABLE in ktxt and any(isinstance(x, ast.comprehension) and u(x.iter) == TABLE for x in ast.walk(k)):
-                why = 'ranges over the keys of the table'
-            elif isinstance(k, ast.Call) and isinstance(k.func, ast.Attribute) and k.func.attr == 'get_size' and not k.args:
-                v = u(k.func.value)
-                if v in popped:
-                    why = '%s is a constant popped under isinstance(.., ExprInt)' % v
-                elif 'isinstance(%s, ExprInt)' % v in dom:
-                    why = '%s is a constant' % v
-                elif ('isinstance(%s.args[' % v) in dom and ', ExprInt)' in dom:
-                    why = 'an operand of %s is a constant (operands of one operator have the same width)' % v
-            if why:
-                R.ok(inst, sample='%s: %s' % (inst, why))
-            else:
-                R.violation(inst, 'size-table:%s:%s' % (f.name, ktxt), '%s is indexed with %s, the width of an arbitrary expression: KeyError for widths without an integer type '
-                            '(slices of 4, 24, 31.. bits)' % (TABLE, ktxt), where(hlp, n), witness="expr_simp(x[0:4] ^ x[0:4]) raises KeyError(4)")
-
-
 MUTANTS = [
     ('cancel-odd-width', 'miasmx/expression/expression_helper.py', "                if op == '^' and can_zero and args[i] == args[j]:", "                if op == '^' and args[i] == args[j]:", 'C05.D5'),
     ('merge-type-unguarded', 'miasmx/expression/expression_helper.py', "        out_type = tab_size_int.get(max_size)\n        if out_type is None:", "        out_type = tab_size_int[max_size]\n        if out_type is None:", 'C05.D5'),
-    ('fold-shift-width', 'miasmx/expression/expression_helper.py', "                if op in op_assoc and i1.get_size() != i2.get_size():", "                if i1.get_size() != i2.get_size():", 'C05.D4'),
+    ('fold-shift-width', 'miasmx/expression/expression_helper.py', "                if op in op_assoc and i1.get_size() != i2.get_size():", "                if i1.get_size() != i2.get_size():", 'C05.D5'),
     ('slice-mem-noseg', 'miasmx/expression/expression_helper.py', "e = ExprMem(e.arg.arg, size = e.stop, segm = e.arg.segm)", "e = ExprMem(e.arg.arg, size = e.stop)", 'C05.D4'),
     ('shift-fold-unbounded', 'miasmx/expression/expression_helper.py', "                elif op in ['>>', '<<'] and i2.arg >= i1.get_size():\n                    # every bit is shifted out (do not build the huge\n                    # intermediate integer)\n                    o = 0\n", "", 'C05.D1'),
     ('mask-shift-nonstrict', 'miasmx/expression/expression_helper.py', "2**args[1].arg > args[0].args[1].arg", "2**args[1].arg >= args[0].args[1].arg", 'C05.D4'),
@@ -563,7 +218,7 @@ MUTANTS = [
     ('slice-mem-any-start', 'miasmx/expression/expression_helper.py', "isinstance(e.arg, ExprMem) and e.start == 0 and e.arg.size > e.stop", "isinstance(e.arg, ExprMem) and e.arg.size > e.stop", 'C05.D4'),
     ('merge-shift-own-width', 'miasmx/expression/expression_helper.py', '(int(out[0].arg) << (out[1] - start ))', '(int(out[0].arg) << (out[2] - out[1]))', 'C05.D3'),
     ('merge-no-adjacency', 'miasmx/expression/expression_helper.py', '                if sorted_s[-1][1][0].stop != out[0].start:\n                    break\n', '', 'C05.D3'),
-    ('merge-mask-width', 'miasmx/expression/expression_helper.py', 'v = x[0].arg & ((1<<(x[2]-x[1]))-1)', 'v = x[0].arg & ((1<<(x[2]))-1)', 'C05.D3'),
+    ('merge-slice-start-kept', 'miasmx/expression/expression_helper.py', '                out[0].start = sorted_s[-1][1][0].start\n', '', 'C05.D3'),
     ('fold-swap', 'miasmx/expression/expression_helper.py', "o = i1.arg >> i2.arg", "o = i2.arg >> i1.arg", 'C05.D1'),
     ('fold-lshift-swap', 'miasmx/expression/expression_helper.py', "o = i1.arg << i2.arg", "o = i2.arg << i1.arg", 'C05.D1'),
     ('fold-xor-or', 'miasmx/expression/expression_helper.py', "o = i1.arg ^ i2.arg", "o = i1.arg | i2.arg", 'C05.D1'),
